@@ -163,7 +163,11 @@ def run_case(case, ctx):
     ov = ('saturate', 'wrap')[(i // 9) % 2]
 
     def code():
-        c = rng.choice(['ext', 'odd', 'tz', 'rand', 'zero'])
+        c = rng.choice(['ext', 'odd', 'tz', 'rand', 'zero', 'pow2', 'pow2'])
+        if c == 'pow2':
+            # a single set bit (or its neighbours): the sizes of the expanding shifts are decided by one bit position
+            k = rng.randint(0, max(0, w - 2))
+            return max(lo, min(hi, rng.choice([1, 1, 1, -1] if s else [1]) * (1 << k) + rng.choice([0, 0, 0, -1, 1])))
         if c == 'ext':
             return rng.choice([lo, hi, lo + 1, hi - 1])
         if c == 'odd':
@@ -181,12 +185,27 @@ def run_case(case, ctx):
     x = Fxp(v, s, w, nf, raw=True, shifting=mode, overflow=ov, rounding=G.ROUNDINGS[(i // 18) % 5])
     if i % 4 == 2:
         x = G.historied(Fxp, x, rng)[0]
-    for n in sorted(set([0, 1, rng.randint(0, w + 3), rng.randint(0, w + 3), w - 1, w, min(w + 3, 62 - w)])):
+    top = max([abs(int(c_)) for c_ in np.asarray(v, dtype=object).ravel().tolist()] + [1])
+    cross = [t - int(top).bit_length() + d for t in (48, 52, 53, 54) for d in (0, 1)]       # counts that carry the largest magnitude across 2^48 .. 2^54
+    for n in sorted(set([0, 1, rng.randint(0, w + 3), rng.randint(0, w + 3), w - 1, w, min(w + 3, 62 - w)] + [c_ for c_ in cross if 0 <= c_ <= w + 3])):
         if 0 <= n and w + n <= 62:
             # the count as a python integer or as a NumPy integer (np.int64, np.uint8, an element of np.arange, a 0-d array)
             nn = n if (i + n) % 3 else rng.choice([np.int64(n), np.int32(n), np.uint8(n), np.arange(n + 1)[n], np.array(n)])
             _try(lambda: x << nn)
             _try(lambda: x >> nn)
+    # expanding shifts of single-bit codes whose shifted magnitude lands on 2^47 .. 2^54 (where sizes computed through floating point go wrong)
+    if w >= 24 and mode == 'expand':
+        for t in (47, 48, 49, 52, 53, 54):
+            k_lo = max(0, t - min(w + 3, 62 - w))
+            if k_lo > w - 2:
+                continue
+            k = rng.randint(k_lo, w - 2)
+            n = t - k
+            if 0 <= n <= w + 3 and w + n <= 62 and k >= 0:
+                for c_ in ((1 << k), -(1 << k) if s else (1 << k) - 1, [1 << k, 3, 0]):
+                    xp = Fxp(c_, s, w, nf, raw=True, shifting='expand', overflow=ov)
+                    _try(lambda: xp << n)
+                    _try(lambda: xp >> min(n, w))
     # an array that is shifted, has one element overwritten (indexed store), and is shifted again: the second shift must be sized from the
     # new contents (lowest set bit / largest magnitude across the array)
     if rank and (i // 27) % 2 == 0:
